@@ -14,7 +14,7 @@ const SPEC: Spec = Spec {
     ],
     bounds_quick: "balanced n in {256,512,...,16384} and every n in 33..=4096 (doubling ratio W(2n)/W(n)); unbalanced bank n x {2n-1,2n,64n} for n in {33,40,100,256,300,1000} and every lx <= 300 x 7 length relations",
     bounds_thorough: "balanced every n in 33..=8192 and 16384; unbalanced bank and every lx <= 700 x 7 length relations",
-    hang_secs: 600,
+    hang_secs: 120,
     probes: Some(probes),
     max_workers: 16,
 };
